@@ -1009,3 +1009,79 @@ func blockEndsInFailure(fi *FactInfo, b *ssa.BasicBlock, ei int) bool {
 	}
 	return false
 }
+
+// paramCopy: v is parameter prm itself, or a load of the local variable that holds an unmodified copy of it
+// (a struct parameter whose address is taken is spilled into an Alloc by the SSA builder).
+func paramCopy(v ssa.Value, prm *ssa.Parameter) bool {
+	if v == ssa.Value(prm) {
+		return true
+	}
+	ld, ok := v.(*ssa.UnOp)
+	if !ok || ld.Op != token.MUL {
+		return false
+	}
+	al, ok := ld.X.(*ssa.Alloc)
+	if !ok || al.Referrers() == nil {
+		return false
+	}
+	n, fromPrm := 0, false
+	for _, r := range *al.Referrers() {
+		if st, isSt := r.(*ssa.Store); isSt && st.Addr == ssa.Value(al) {
+			n++
+			fromPrm = st.Val == ssa.Value(prm)
+		}
+	}
+	return n == 1 && fromPrm
+}
+
+// handedIn: v is something the function was given by its caller: a parameter, a field of a struct parameter
+// (a parameter object, by value or through a pointer), or the local copy of either.
+func handedIn(fn *ssa.Function, v ssa.Value) bool {
+	for i := 0; i < 4 && v != nil; i++ {
+		switch x := v.(type) {
+		case *ssa.Parameter:
+			return true
+		case *ssa.MakeInterface:
+			v = x.X
+		case *ssa.ChangeInterface:
+			v = x.X
+		case *ssa.Field:
+			v = x.X
+		case *ssa.UnOp:
+			if x.Op != token.MUL {
+				return false
+			}
+			switch a := x.X.(type) {
+			case *ssa.FieldAddr:
+				v = a.X
+			case *ssa.Alloc:
+				for _, prm := range fn.Params {
+					if paramCopy(x, prm) {
+						return true
+					}
+				}
+				return false
+			default:
+				return false
+			}
+		case *ssa.Alloc:
+			// the address of the spilled parameter copy
+			for _, prm := range fn.Params {
+				n, fromPrm := 0, false
+				for _, r := range *x.Referrers() {
+					if st, isSt := r.(*ssa.Store); isSt && st.Addr == ssa.Value(x) {
+						n++
+						fromPrm = st.Val == ssa.Value(prm)
+					}
+				}
+				if n == 1 && fromPrm {
+					return true
+				}
+			}
+			return false
+		default:
+			return false
+		}
+	}
+	return false
+}
